@@ -163,12 +163,34 @@ class ATuple:
         return ("tuple",) + tuple(vkey(i) for i in self.items)
 
 
+_RECORD_NAMES = {}  # key of a record value -> its field names (a record that went through a conditional keeps its fields)
+
+
 class ARecord(ATuple):
     """A namedtuple / dataclass instance: a tuple whose positions have names."""
 
     def __init__(self, items, names):
         ATuple.__init__(self, items)
         self.names = list(names)
+        try:
+            _RECORD_NAMES[self.key()] = list(names)
+        except Exception:  # noqa
+            pass
+
+
+def _value_of_key(k):
+    """Abstract value denoted by a key (inverse of vkey, as far as the interpreter needs it)."""
+    if _is_polykey(k):
+        return poly_from_key(k)
+    if isinstance(k, tuple) and k and k[0] == "tuple":
+        items = [_value_of_key(x) for x in k[1:]]
+        names = _RECORD_NAMES.get(k)
+        return ARecord(items, names) if names else ATuple(items)
+    if isinstance(k, tuple) and k and k[0] == "list":
+        return AList([_value_of_key(x) for x in k[1]])
+    if isinstance(k, tuple) and k and k[0] == "const" and len(k) == 2 and k[1] == "None":
+        return None
+    return Poly.atom(k)
 
 
 class AList:
@@ -357,6 +379,10 @@ def g_cmp(op, a, b, keys=False):
         return TRUE
     if ka == kb and op in ("!=", "<", ">", "is not"):
         return FALSE
+    if op == "not in":
+        return g_not(g_cmp("in", ka, kb, keys=True))
+    if op == "in" and isinstance(kb, tuple) and kb and kb[0] == "list" and kb[1] and all(x == kb[1][0] for x in kb[1]):
+        return g_cmp("==", ka, kb[1][0], keys=True)  # membership in [y, y, ...] is equality with y
     if op == "!=":
         return g_not(g_cmp("==", ka, kb, keys=True))
     if op == "is not":
@@ -726,6 +752,13 @@ class Event:
         return "Event(%s, %s, %s)" % (self.name, [show(a) for a in self.args], {k: show(v) for k, v in self.kwargs.items()})
 
 
+WELL_KNOWN = {
+    "defaultdict": "collections.defaultdict", "OrderedDict": "collections.OrderedDict", "Counter": "collections.Counter", "deque": "collections.deque",
+    "chain": "itertools.chain", "repeat": "itertools.repeat", "islice": "itertools.islice", "count": "itertools.count", "accumulate": "itertools.accumulate",
+    "reduce": "functools.reduce", "partial": "functools.partial", "attrgetter": "operator.attrgetter", "itemgetter": "operator.itemgetter",
+}
+
+
 class Interp:
     """Abstract interpreter of one function (with bounded inlining of repository helpers)."""
 
@@ -936,6 +969,8 @@ class Frame:
             return [(st, ("fall",))]
         if isinstance(s, (ast.FunctionDef, ast.ClassDef)):
             st.env[s.name] = Poly.atom(("localdef", s.name))
+            if isinstance(s, ast.FunctionDef):
+                self.I.__dict__.setdefault("localdefs", {})[(self.fi.qualname, s.name)] = (s, self.fi, self.cls)
             return [(st, ("fall",))]
         if isinstance(s, ast.Delete):
             for t in s.targets:
@@ -1279,6 +1314,21 @@ class Frame:
         """Value of `base.attr` (also reached through getattr(base, "attr"))."""
         if isinstance(base, ARecord) and attr in base.names:
             return base.items[base.names.index(attr)]
+        if isinstance(base, Poly):
+            ba = base.as_atom()
+            if ba is not None and ba[0] == "val" and isinstance(ba[1], tuple) and ba[1] and ba[1][0] == "tuple" and attr in (_RECORD_NAMES.get(ba[1]) or ()):
+                return _value_of_key(ba[1]).items[_RECORD_NAMES[ba[1]].index(attr)]
+            if ba is not None and ba[0] == "cond":
+                # a record chosen by a test: the field of the record that is chosen
+                alts = []
+                for g, k in ba[1]:
+                    if isinstance(k, tuple) and k and k[0] == "tuple" and attr in (_RECORD_NAMES.get(k) or ()):
+                        alts.append((g, _value_of_key(k).items[_RECORD_NAMES[k].index(attr)]))
+                    else:
+                        alts = None
+                        break
+                if alts:
+                    return make_cond(alts)
         slot = ("@attr", vkey(base), attr)
         if slot in st.env:
             return st.env[slot]
@@ -1387,7 +1437,7 @@ class Frame:
 
     def compare(self, op, a, b):
         if op in ("in", "not in"):
-            g = ("cmp", "in", vkey(a), vkey(b))
+            g = g_cmp("in", vkey(a), vkey(b), keys=True)
             return g if op == "in" else g_not(g)
         if isinstance(a, str) and isinstance(b, str):
             r = {"==": a == b, "!=": a != b}.get(op)
@@ -1656,6 +1706,26 @@ class Frame:
             # function it holds, under the condition that selects it
             alts = _cond_alternatives(fv) if isinstance(fv, Poly) else None
             refs = alts if alts is not None else ([(TRUE, fv)] if isinstance(fv, Poly) else [])
+            fa = fv.as_atom() if isinstance(fv, Poly) else None
+            ld = self.I.__dict__.get("localdefs", {}).get((self.fi.qualname, fa[1])) if (fa is not None and fa[0] == "localdef") else None
+            if ld is not None and len(self.I.stack) < self.I.max_depth and (self.fi.qualname + "." + fa[1]) not in self.I.stack:
+                # a function defined inside this one: its body, reading the enclosing function's variables
+                from .model import FunctionInfo
+
+                node_, outer, cls_ = ld
+                nfi = self.I.prog.functions.get(outer.qualname + "." + fa[1]) or FunctionInfo(outer.qualname + "." + fa[1], node_, self.module, cls=None, parent=outer)
+                own = {a.arg for a in node_.args.posonlyargs + node_.args.args + node_.args.kwonlyargs}
+                carried = {k: v for k, v in st.env.items() if isinstance(k, tuple) or k not in own}
+                saved = Event.prefix
+                Event.prefix = tuple(saved) + tuple(st.guards)
+                try:
+                    res, final = _interp_run_with_env(self.I, nfi, list(args), kwargs, cls_, carried)
+                finally:
+                    Event.prefix = saved
+                for k, v in final.env.items():
+                    if isinstance(k, tuple):
+                        st.env[k] = v
+                return res
             if refs and not kwargs and all(isinstance(r, Poly) and r.as_atom() is not None and r.as_atom()[0] in ("g", "attrgetter", "itemgetter") for _, r in refs):
                 return make_cond([(g, self.apply_ref(r, list(args), st, e)) for g, r in refs])
             return self.opaque_call("local:" + show(fv) if not isinstance(fv, str) else fv, args, kwargs, st, e)
@@ -1667,6 +1737,9 @@ class Frame:
         tgt = self.module.imports.get(root)
         if tgt and root != tgt:
             full = tgt + dotted[len(root):]
+        elif not tgt and dotted in WELL_KNOWN and self.I.prog.resolve_function(dotted, self.module) is None:
+            # a specification (or a module that no longer imports it) naming a standard-library helper by its bare name
+            full = WELL_KNOWN[dotted]
         full = full.replace("numpy.", "np.")
         return ALIASES.get(full, ALIASES.get(dotted, full))
 
@@ -1790,6 +1863,34 @@ class Frame:
             return Poly.atom(("attrgetter", args[0]))
         if name in ("operator.itemgetter", "itemgetter") and len(args) == 1 and not kwargs:
             return Poly.atom(("itemgetter", vkey(args[0])))
+        if dotted in ("sorted", "list", "tuple", "set", "len", "iter") and len(args) == 1 and isinstance(args[0], Poly):
+            ka = args[0].as_atom()
+            if ka is not None and ka[0] == "mcall" and ka[1] == "keys" and not ka[3] and not ka[4] and _is_polykey(ka[2]):
+                args = [poly_from_key(ka[2])] + list(args[1:])  # iterating a mapping is iterating its keys
+        if dotted in ("all", "any") and len(args) == 1 and not kwargs and isinstance(args[0], AList) and args[0].items and dotted not in st.env:
+            # all(a != x for a in xs)  is  x not in xs ;  any(a == x for a in xs)  is  x in xs
+            eqs = []
+            for it_ in args[0].items:
+                ia = it_.as_atom() if isinstance(it_, Poly) else None
+                if dotted == "all" and ia is not None and ia[0] == "not":
+                    ia = ia[1]
+                elif dotted == "all":
+                    ia = None
+                if ia is not None and ia[0] == "cmp" and ia[1] == "==":
+                    eqs.append((ia[2], ia[3]))
+                else:
+                    eqs = None
+                    break
+            if eqs:
+                side = 1 if all(p_[1] == eqs[0][1] for p_ in eqs) else (0 if all(p_[0] == eqs[0][0] for p_ in eqs) else None)
+                if all(p_ == eqs[0] for p_ in eqs):
+                    one = g_cmp("==", eqs[0][0], eqs[0][1], keys=True)
+                    return Poly.atom(one if dotted == "any" else g_not(one))
+                if side is not None:
+                    x = eqs[0][side]
+                    others = [p_[1 - side] for p_ in eqs]
+                    inside = g_cmp("in", x, ("list", tuple(others)), keys=True)
+                    return Poly.atom(inside if dotted == "any" else g_not(inside))
         if dotted == "getattr" and len(args) == 2 and isinstance(args[1], str) and not kwargs and args[1].isidentifier():
             return self.attr_of(args[0], args[1], node.args[0] if isinstance(node, ast.Call) and node.args else None, node, st)
         if dotted == "setattr" and len(args) == 3 and isinstance(args[1], str) and not kwargs and args[1].isidentifier():
@@ -1996,6 +2097,17 @@ class Frame:
                 return None
             if name == "copy" and not args:
                 return type(recv)(recv.items, recv.doms)
+        if isinstance(recv, ADict) and name == "setdefault" and len(args) == 2 and not kwargs and not recv.items and isinstance(args[1], AList) and not args[1].items and isinstance(f.value, ast.Name):
+            # d = {}; d.setdefault(k, []).append(x)  is  d = defaultdict(list); d[k].append(x)
+            dd = Poly.atom(("call", "collections.defaultdict", (Poly.atom(("g", "list")).key(),), ()))
+            for k2, v2 in list(st.env.items()):
+                if v2 is recv:
+                    st.env[k2] = dd
+            return Poly.atom(("sub", dd.key(), vkey(args[0])))
+        if isinstance(recv, Poly) and name == "setdefault" and len(args) == 2 and not kwargs and isinstance(args[1], AList) and not args[1].items:
+            ra = recv.as_atom()
+            if ra is not None and ra[0] == "call" and ra[1] == "collections.defaultdict":
+                return Poly.atom(("sub", recv.key(), vkey(args[0])))
         if isinstance(recv, ADict):
             if name == "items" and (recv.items or not recv.doms):
                 return AList([ATuple([k, v]) for k, v in recv.items.values()], list(recv.doms))
@@ -2544,6 +2656,14 @@ class Valuation:
         if isinstance(v, Poly):
             if self.is_absent_key(v.key()):
                 return "ABSENT"
+            a = v.as_atom()
+            if a is not None and a[0] == "cond":
+                # a container chosen by a test denotes, in this scenario, the container that is chosen
+                for g, k in a[1]:
+                    if self.truth(g):
+                        if isinstance(k, tuple) and k and k[0] in ("tuple", "list"):
+                            return self.value(_value_of_key(k))
+                        break
             return self.poly(v)
         if isinstance(v, ASet):
             return ("set", tuple(sorted({repr(self.value(i)) for i in v.items if self.value(i) != "ABSENT"})))
